@@ -540,6 +540,26 @@ let analyze (head : string) (fam : string) (lines : string array) : result =
       if exp <> got then fail "delivery" (Printf.sprintf "s%d: complete frames of the stream answer [%s] in this order, callbacks were [%s]" k
                                             (String.concat "," (List.map string_of_int exp)) (String.concat "," (List.map string_of_int got)))
     end) socks;
+  (* a request that was accepted (RET rc=0) but whose query never reached a server although the
+     event loop ran to quiescence afterwards: bytes stuck in an out buffer nobody flushes *)
+  if fam = "multi" || fam = "pure" then begin
+    let connect_pending = List.mem "connectlater=1" cfgw in
+    if not connect_pending then
+      Hashtbl.iter (fun name t ->
+        if not (Hashtbl.mem tok_tx t) then begin
+          let ended16 = List.exists (fun cb -> starts_with (Printf.sprintf "t%d status=16 " t) cb) r.cbs in
+          (* only when the application did its part after the request: honoured a pending-write
+             notification (flushwrites) and then ran the event loop *)
+          let req_at = ref (-1) and flushed_at = ref (-1) and ran = ref false in
+          Array.iteri (fun li l ->
+            if !req_at < 0 then begin
+              if starts_with (Printf.sprintf "REQ t%d " t) l then req_at := li
+            end else if !flushed_at < 0 then begin
+              if starts_with "FLUSHWRITES begin" l then flushed_at := li
+            end else if starts_with "RUN iterations=" l then ran := true) lines;
+          if ended16 && !ran then fail "stall" (Printf.sprintf "t%d (%s) was accepted but never transmitted to any server" t name)
+        end) tok_of_name
+  end;
   Hashtbl.iter (fun t () -> fail (if !zero_seen then "zerolen" else "tc") (Printf.sprintf "t%d: truncated UDP answer was never retried over TCP%s" t (if !zero_seen then " (after a zero length datagram)" else ""))) expect_tcp;
   r.cbs <- List.sort compare r.cbs;
   r.txs <- List.rev r.txs;
